@@ -327,6 +327,49 @@ def main(ck):
             ck.broken.append("obligation:well_locked al_table (ill-locked: %s)" % ",".join(aill))
             ck.coq_log_tail = o[-1500:]
 
+    # the SPAN of the per-VM load lock (runtime/load_lock.go: loads.enter() / loads.leave()) in VM.LoadAndRun and
+    # TempVM.LoadAndRun: the walker's path mode forks every `if` that contains a lock operation or a return, one table
+    # entry per execution path; enter/leave are the lock operations, the only call-outs are the runs of user code
+    # (GetValue / Call); field accesses are not recorded.  Obligations: every path is well locked -- in particular NO
+    # path runs user code while it holds the load lock (seeded change C10-15) -- and every path takes the lock before
+    # anything else (the test of the "file loaded" mark is inside the lock on every path: seeded change C10-4)
+    span_tables = []
+    for typ, fil in (("VM", "vm.go"), ("TempVM", "vm_temp.go")):
+        rc, t = vcheck.sh([binary, "walk", vcheck.REPO, "runtime", typ, fil, "mu=loads", "paths", "noaccess", "ext=GetValue,Call", "only=LoadAndRun"]) if binary else (1, "")
+        if rc != 0 or "Definition vm_table" not in t or "LoadAndRun#" not in t:
+            ck.log("walker (path mode) failed on %s.LoadAndRun:\n%s" % (typ, t[-600:]))
+            ck.broken.append("translator:lock-walker(load-lock span %s)" % typ)
+            continue
+        span_tables.append((typ, t[t.index("Definition vm_table"):].replace("vm_table", "span_%s" % typ.lower())))
+    if len(span_tables) == 2:
+        sobl = os.path.join(ck.bdir, "LoadLockSpanObligations.v")
+        body = "(* GENERATED — execution paths of VM.LoadAndRun / TempVM.LoadAndRun w.r.t. the load lock *)\nFrom Coq Require Import List String.\nImport ListNotations.\nFrom V.Common Require Import LockDiscipline.\nOpen Scope string_scope.\n\n"
+        body += "\n".join(t for _, t in span_tables)
+        body += ("\nDefinition span_all : table := (span_vm ++ span_tempvm)%list.\nSet Printing Width 100000.\n"
+                 "Definition ill := Eval vm_compute in ill_locked span_all.\nPrint ill.\n"
+                 "Lemma load_lock_span_well_locked : well_locked span_all = true.\nProof. vm_compute. reflexivity. Qed.\n"
+                 "(* no path of LoadAndRun runs user code (AExt) while it holds the load lock *)\n"
+                 "Theorem load_lock_not_held_over_user_code : forall progs sched, Forall (from_table span_all) progs -> forall i h r, nth_error (LockDiscipline.run (init_state progs) sched) i = Some (h, AExt :: r) -> h = Free.\n"
+                 "Proof. exact (well_locked_ext_free_l span_all load_lock_span_well_locked). Qed.\n"
+                 "(* every path enters the lock first, and some path does run user code (the table is not empty of call-outs) *)\n"
+                 "Lemma load_lock_taken_first : forallb (fun e => match snd e with ALock :: _ => true | _ => false end) span_all = true.\nProof. vm_compute. reflexivity. Qed.\n"
+                 "Lemma load_lock_span_nonvacuous : andb (existsb (fun e => existsb (fun a => match a with AExt => true | _ => false end) (snd e)) span_vm) (existsb (fun e => existsb (fun a => match a with AExt => true | _ => false end) (snd e)) span_tempvm) = true.\nProof. vm_compute. reflexivity. Qed.\n")
+        open(sobl, "w").write(body)
+        rc, o = ck.coqc(sobl, cwd=ck.bdir, timeout=300)
+        ck.obligations += 4
+        ck.checker_cmds.append("coqc .build/C10/LoadLockSpanObligations.v (regenerated by `c10 walk ... mu=loads paths noaccess ext=GetValue,Call only=LoadAndRun`)")
+        m = re.search(r"ill\s*=\s*\[(.*?)\]\s*:\s*list string", o, re.S)
+        sill = re.findall(r'"([^"]+)"', m.group(1)) if m else []
+        ck.cov["load_lock_span_ill_paths"] = sill
+        ck.cov["load_lock_span_paths"] = sum(t.count("LoadAndRun#") for _, t in span_tables)
+        if rc == 0:
+            ck.discharged += 4
+            ck.theorems += ["load_lock_span_well_locked", "load_lock_not_held_over_user_code", "load_lock_taken_first", "load_lock_span_nonvacuous"]
+        else:
+            ck.log("regenerated load-lock span obligations FAILED; ill-locked paths: %s\n%s" % (sill, o[-800:]))
+            ck.broken.append("obligation:load-lock span (ill-locked paths: %s)" % ",".join(sill))
+            ck.coq_log_tail = o[-1500:]
+
     # ---------------------------------------------------------------- (iii) race stress + concurrent histories
     bias = sorted(set(METHOD_OPS[m] for m in ill if m in METHOD_OPS)) or None
     stress = []
@@ -392,13 +435,13 @@ def main(ck):
         # an AGED process: 1.05 million goroutines have come and gone before the run (every connection and every spawn of a
         # long-running server is a goroutine), so the goroutines of the run have 7-digit ids; the re-entrant load lock
         # tells its owner from the others by goroutine id (seeded change C10-14: only the first 6 digits were read)
-        for (n, g) in ([(8, 8), (16, 16), (4, 2)] if ck.tier == "quick" else [(n, g) for n in (2, 4, 8, 16) for g in (2, 8, 16)]):
+        for (n, g) in ([(8, 8), (16, 16)] if ck.tier == "quick" else [(n, g) for n in (2, 4, 8, 16) for g in (2, 8, 16)]):
             ths = []
             for _ in range(n):
                 t = [{"op": "goc", "name": "App\\P"}, {"op": "goi", "name": "App\\Q"}, {"op": "pkg", "name": "App\\S"}]
                 rng.shuffle(t)
                 ths.append(t)
-            auto_cfgs.append({"autoload": AUTO, "age": 1050000, "threads": ths, "gomaxprocs": g, "repeat": 40, "keepall": True, "results_only": True})
+            auto_cfgs.append({"autoload": AUTO, "age": 1050000, "threads": ths, "gomaxprocs": g, "repeat": 30, "keepall": True, "results_only": True})
         # spl autoload callbacks (process-wide list in parser/class_path_manager.go): 4 callbacks, the first three decline
         # every Dyn3_* name, the last one defines it; lookups of fresh Dyn3_* names (each goes through CallAutoLoad) run
         # while other goroutines unregister and re-register the declining callbacks in front of it.  The loader is
